@@ -405,6 +405,14 @@ def oracle(case, obs):
                     out.append(("C15", "C15/links-inconsistent/dead-upstream", "after step %d: %d has a collected upstream" % (step, i)))
                 elif i not in links[u][2]:
                     out.append(("C15", "C15/links-inconsistent/up-without-down/%s" % kinds[i], "after step %d (%s): %d lists %d upstream but is not among its downstreams" % (step, op, i, u)))
+        # (1b) destroy detaches the node from ALL its upstream sources (also when done from inside a callback)
+        dn = None
+        if op[0] == "destroy" and not o["raised"]:
+            dn = op[1]
+        if op[0] == "remit" and op[4][0] == "destroy" and o.get("edit_done") and not o.get("edit_raised"):
+            dn = op[4][1]
+        if dn is not None and dn < len(links) and links[dn][0] and links[dn][1]:
+            out.append(("C15", "C15/destroy/still-attached", "after step %d (%s): node %d was destroyed but still lists the upstreams %r" % (step, op, dn, links[dn][1])))
         # (2) deliveries exactly along the edges that existed before this op (for emits: current edges)
         prev = obs[step - 1]["links"] if step > 0 else []
         for (s, d, x) in o["deliv"]:
